@@ -1952,7 +1952,10 @@ func doUpdate(st *state.State, requested []string, updates []update, opts Option
 		if err != nil {
 			return nil, false, nil, err
 		}
-		installTasksets = append(installTasksets, pruningAutoAliasesTs)
+		// all snaps might have been skipped because of conflicts
+		if len(pruningAutoAliasesTs.Tasks()) != 0 {
+			installTasksets = append(installTasksets, pruningAutoAliasesTs)
+		}
 	}
 
 	// wait for the auto-alias prune tasks as needed
@@ -2032,7 +2035,10 @@ func doUpdate(st *state.State, requested []string, updates []update, opts Option
 		if err != nil {
 			return nil, false, nil, err
 		}
-		installTasksets = append(installTasksets, addAutoAliasesTs)
+		// all snaps might have been skipped because of conflicts
+		if len(addAutoAliasesTs.Tasks()) != 0 {
+			installTasksets = append(installTasksets, addAutoAliasesTs)
+		}
 	}
 
 	for _, up := range alreadySatisfied {
